@@ -2405,8 +2405,14 @@ class Wallet(object):
                 keys_to_add = list(zip(*public_keys))
             new_ms_keys = []
             for ms_key_cosigners in keys_to_add:
-                new_ms_keys.append(self._new_key_multisig(list(ms_key_cosigners), name, account_id, change, cosigner_id,
-                                                      network, address_index, witness_type))
+                # change and address index of a multisig key are those of its path, as stored with the cosigner keys
+                ms_change, ms_address_index = change, address_index
+                for cokey in ms_key_cosigners:
+                    if cokey.key_type != 'single' and cokey.change is not None:
+                        ms_change, ms_address_index = cokey.change, cokey.address_index
+                        break
+                new_ms_keys.append(self._new_key_multisig(list(ms_key_cosigners), name, account_id, ms_change, cosigner_id,
+                                                      network, ms_address_index, witness_type))
             return new_ms_keys if new_ms_keys else None
 
         # Check for closest ancestor in wallet
